@@ -103,6 +103,12 @@ def prop_graph(rec):
             labs.add('explicit-default')
         if model['tests']:
             labs.add('has-test')
+        if model.get('driver_tests'):
+            labs.add('has-driver-test')
+        if any(s.get('hdrs') for s in model['steps']):
+            labs.add('generated-header-include')
+        if any(s.get('pchname') for s in model['steps']):
+            labs.add('pch-by-name')
         if any(m['always'] and not m['phony'] for m in g):
             labs.add('always-outdated')
         rec.case(labs, nontrivial=([backend, graph.canonical(model)]
@@ -196,7 +202,7 @@ def prop_graph(rec):
                     run_keys(need_must)
                 may = graph.dirty_after_touch(need_may, f, may=True) & \
                     run_keys(need_may)
-                if backend == 'ninja' and f.endswith('.o'):
+                if backend == 'ninja' and f.endswith(('.o', '.gch')):
                     # Ninja itself re-runs a deps=gcc edge whose output is
                     # newer than its recorded dependency information
                     may = may | {m['key'] for m in need_may
@@ -207,11 +213,11 @@ def prop_graph(rec):
             named = [m for m in g if m['phony']][:3]
             extra_targets = [(m['outputs'][0][2:], [m['outputs'][0]])
                              for m in named]
-            if model['tests']:
+            if graph.all_tests(model):
                 byid = graph.step_by_id(model)
                 extra_targets.append(('tests', [
                     graph.B + graph.out_name(model, byid[i])
-                    for i in model['tests']]))
+                    for i in graph.all_tests(model)]))
             for tname, tgoals in extra_targets:
                 for rel in sorted(set(sandbox.snapshot(bld)) -
                                   after_configure, reverse=True):
